@@ -165,6 +165,9 @@ func (s *reportSim) spawnWarrior(wi int, startOffset Address) error {
 		return fmt.Errorf("warrior already spawned")
 	}
 
+	// reduce first: startOffset+i must not wrap around 2^64
+	startOffset %= s.m
+
 	for i := Address(0); i < Address(len(w.data.Code)); i++ {
 		s.mem[(startOffset+i)%s.m] = w.data.Code[i]
 	}
